@@ -12,6 +12,8 @@ import collections
 
 from harness import c03_check as K
 from harness import c03_gen as G
+from harness import c03_passes as P
+from harness import c03_pipeline
 from harness import c03_tables
 
 PROPERTY = "C03"
@@ -19,6 +21,7 @@ LEVEL = "proof"
 
 
 def regenerate(ctx):
+    ctx.pipeline_info = c03_pipeline.regenerate(ctx)
     return c03_tables.regenerate(ctx)
 
 
@@ -38,9 +41,18 @@ def run(ctx):
     ctx.assume("Opt/Fold.v models the pass with onnx_shape_inference=False (node-level ONNX shape inference is not modelled); names stand for "
                "ir.Value objects, faithful on models whose value names are unique across graphs/functions (generated so; others are skipped "
                "by the correspondence and still covered by the differential oracle)")
-    ctx.assume("stages implemented by onnx_ir (Inline, DCE, lift constants / subgraph initializers, dedup, CSE, OutputFix, NameFix) and the "
-               "rewrite rules (C05/C07) are covered differentially only; float outputs are compared up to round-off (tight for integer-valued "
-               "data flows), NaN / infinities must coincide, ints / bools / strings bit-equal")
+    ctx.assume("onnx_ir stages: RemoveUnusedNodesPass and CommonSubexpressionEliminationPass have Gallina models (Opt/Dce.v, Opt/Cse.v) compared "
+               "with the real passes on every observed (before, after) pair; the DCE theorem is unconditional, the CSE theorem covers merges "
+               "satisfying merge_guard (same attribute list, not a graph output, no use in nested graphs, SSA side conditions); trimming of "
+               "trailing omitted inputs / unused optional outputs by DCE is not modelled")
+    ctx.assume("Section hypotheses of C03_optimize_ir_sound_partial (stages without a model, each assumed to preserve evaluation): InlinePass, "
+               "FoldConstantsPass as a stage (its own theorem: C03_fold_graph_sound_partial under pe_ok / oracles), RewritePass (C05 rules + C07 "
+               "application), RemoveUnusedFunctionsPass, RemoveUnusedOpsetsPass, LiftConstantsToInitializersPass, "
+               "LiftSubgraphInitializersToMainGraphPass, DeduplicateInitializersPass, OutputFixPass, NameFixPass: covered per pass by the "
+               "before/after ORT + onnx.reference oracle; float outputs are compared up to round-off (tight for integer-valued data flows), "
+               "NaN / infinities must coincide, ints / bools / strings bit-equal")
+    ctx.trust("translator harness/c03_pipeline.py (Python ast, fail-closed) -> coq/Gen/OptPipeline.v; the shape predicate pipeline_ok "
+              "(coq/Opt/Pipeline.v) states what the soundness argument needs of the pass list")
     info = regenerate(ctx)
     ctx.check_props()
     ctx.build(["Opt/FoldInst.vo"])          # the executable instance used by the correspondence
@@ -56,13 +68,21 @@ def run(ctx):
     if agree < n_trace // 3:
         ctx.tie_broken("correspondence", "fold-trace:generator-degenerate", f"only {agree} of {n_trace} cases compared: {dict(tstats)}")
 
+    pinfo = getattr(ctx, "pipeline_info", None)
+    ctx.obligation("translator: pass list of optimize_ir read from the source (constructor names, arguments, order, PassManager wiring, inline prefix)",
+                   pinfo is not None, str(pinfo)[:600] if pinfo else "not recognised")
+    pc = P.PassChecker(ctx, "C03")
+    n_pass_dag = 25 if quick else 150
+
     # (iii) direct oracle
     stats = collections.Counter()
     discards = collections.Counter()
     feats = collections.Counter()
     n_dag = 90 if quick else 700
     import itertools
-    for c in itertools.chain(K.corpus_stream(rng, "C03"), K.dag_stream(rng, n_dag, overridable_every=9, start=1000)):
+    for c in itertools.chain(K.corpus_stream(rng, "C03"), K.alias_stream(rng, 15 if quick else 60),
+                             K.pass_family_stream(rng, 15 if quick else 60),
+                             K.dag_stream(rng, n_dag, overridable_every=9, start=1000)):
         if not isinstance(c, G.Case):
             discards["generator-error: " + c[1][:60]] += 1
             continue
@@ -75,6 +95,10 @@ def run(ctx):
             feats[f] += 1
         ctx.case(("dag", tuple(f for f in c.features if not f.startswith("value_info"))[:12]))
         K.differential(ctx, c, base, K.run_plan(rng, ctx.tier, c), stats)
+        if not c.kind.startswith("dag") or stats["per-pass-dag-models"] < n_pass_dag:
+            # every individual pass of the real pipeline: before/after oracle + model correspondence (DCE, CSE)
+            stats["per-pass-dag-models"] += int(c.kind.startswith("dag"))
+            pc.check_case(c, base, None if rng.random() < 0.6 else K.R.option_tuples(rng, 2)[1])
         if stats["valid-dag-models"] == 3:
             ctx.sample({"ident": c.ident, "features": c.features, "nodes": len(c.model.graph.node), "feeds": len(c.feeds)})
     n_lift = 70 if quick else None
@@ -89,11 +113,13 @@ def run(ctx):
         if not quick:
             plan += [("optimize", K.R.option_tuples(rng, 2)[1], True), ("rewrite", None, False)]
         K.differential(ctx, c, base, plan, stats)
+    pstats = pc.finish() or pc.stats
+    zero_sign_witness(ctx, stats)
     if stats["valid-dag-models"] < n_dag // 2:
         ctx.tie_broken("harness", "generator-degenerate", f"only {stats['valid-dag-models']} valid DAG models of {n_dag}: {dict(discards)}")
     ctx.obligation("direct oracle: every entry point / option tuple leaves the outputs of every valid generated model unchanged "
                    "(known findings excepted)", stats["violations"] == 0 or not ctx.violations, f"{dict(stats)}")
-    ctx.cover(trace=dict(tstats), oracle=dict(stats), discarded=dict(discards),
+    ctx.cover(trace=dict(tstats), oracle=dict(stats), per_pass=dict(pstats), pipeline=pinfo, discarded=dict(discards),
               feature_histogram=dict(sorted(feats.items())),
               translator={"registry": len(info["registry"]) if info else None, "guards_graph_inputs": info.get("guard") if info else None},
               generator="typed random DAGs (profiles mixed/fold/control/rules/seq): constants as initializers / Constant attrs, shape chains, "
@@ -102,3 +128,26 @@ def run(ctx):
                         "(inputs -> initializers / Constant nodes, wrapped in If, chained)")
     if ctx.tier == "thorough":
         ctx.coqchk(["Props.C03"])
+
+
+def zero_sign_witness(ctx, stats):
+    """Props/C03.v: C03_cse_python_key_refuted on the real code: LeakyRelu<alpha=0.0>(x) and LeakyRelu<alpha=-0.0>(x) have keys that are
+    equal in Python; 1 / (.) tells the two results apart for x < 0 (onnxruntime; onnx.reference computes LeakyRelu differently
+    and is not used here)."""
+    import numpy as np
+    c = G.gen_pass_case(ctx.rng, 0, "attr-zero-sign")
+    try:
+        m2 = K.R.apply_entry("optimize", c.model)
+    except Exception:
+        return
+    s0, o0 = K.R.run_ort(c.model, c.feeds)
+    s2, o2 = K.R.run_ort(m2, c.feeds)
+    merged = sum(1 for n in m2.graph.node if n.op_type == "LeakyRelu") < 2
+    stats["witness-zero-sign-merged"] = int(merged)
+    ctx.case(("witness-zero-sign", merged))
+    if s0 == "ok" and (s2 != "ok" or any(K.R.compare_outputs(a, b, c.exact) is not None for a, b in zip(o0, o2))):
+        ctx.violation("C03:cse:float-attribute-zero-sign-merged",
+                      "optimize(): CommonSubexpressionEliminationPass merges LeakyRelu<alpha=0.0>(x) with LeakyRelu<alpha=-0.0>(x) (keys equal in "
+                      "Python); 1/(.) of the two differs in the sign of the infinity for x < 0",
+                      K.replay_doc(c, "optimize", None, False))
+        stats["violations"] += 1
